@@ -13,6 +13,7 @@ import sys
 from vlib import core, histgen, histmodel
 
 ID = "C11"
+READY = True
 LEVEL = "exploration"
 RULE = ("(a) every sequence of length <=4 over {7 fixed changes, undo, redo, undo(0), undo(1), redo(0), "
         "undo(drop)} x limit in {1,2,100} on a 2-file/1-folder tree, pruned where the model says a change is "
